@@ -27,3 +27,42 @@ Definition nodup_arrs (blocks : list block) : bool :=
   forallb (fun a => Nat.eqb (length (filter (nl_eqb a) all)) 1) all.
 Theorem c04_no_arrangement_twice : nodup_arrs blocks_O2 = true /\ nodup_arrs blocks_O3 = true /\ nodup_arrs blocks_O4 = true.
 Proof. repeat split; vm_compute; reflexivity. Qed.
+
+From Coq Require Import ZArith PArith.
+From SymfcV Require Import Group Concrete Cutoff PermModel Complete.
+
+(** Row coverage.  For every valid translation table, every symmetric, reflexive, translation-invariant
+    cutoff relation (or none) and every order n whose patterns are all covered by the tables: every index
+    tuple whose atoms are mutually inside the cutoff has its element in some row of the orbit routine --
+    it is written, hence (C07: c07_eliminated_iff_in_no_row) NOT eliminated.  Argument: translate the tuple
+    so that its smallest atom is the smallest over all translates; that atom is an orbit minimum, hence
+    translationally independent, so the sorted distinct indices form a listed combination. *)
+Theorem c04_every_near_tuple_in_some_row n blocks N tp nr t :
+  0 < n -> (forall b, In b blocks -> 0 < group_width b) -> valid_tp N tp = true ->
+  (forall r, nr = Some r -> forall i j, nearb r i j = nearb r j i) ->
+  (forall r, nr = Some r -> forall i, i < N -> nearb r i i = true) ->
+  (forall r, nr = Some r -> forall tau i j, tau < length tp -> i < N -> j < N -> nearb r (act tp tau i) (act tp tau j) = nearb r i j) ->
+  covers n blocks = true ->
+  wf_t N n t -> tuple_near nr t ->
+  in_some_row (elem_tab N tp) (bc blocks N tp nr) (elem_tab N tp t).
+Proof. intros Hn Hw Hv S R I Hc. exact (covered_near_tuple_in_some_row n blocks Hn Hw N tp Hv nr S R I t Hc). Qed.
+Print Assumptions c04_every_near_tuple_in_some_row.
+
+(** Order 4 (tables incomplete): the same conclusion for every tuple all of whose translates have their
+    arrangement in the tables, i.e. for every index-equality pattern except (ia,ia,jb,jb). *)
+Theorem c04_every_near_tuple_in_some_row_partial n blocks N tp nr t :
+  0 < n -> (forall b, In b blocks -> 0 < group_width b) -> valid_tp N tp = true ->
+  (forall r, nr = Some r -> forall i j, nearb r i j = nearb r j i) ->
+  (forall r, nr = Some r -> forall i, i < N -> nearb r i i = true) ->
+  (forall r, nr = Some r -> forall tau i j, tau < length tp -> i < N -> j < N -> nearb r (act tp tau i) (act tp tau j) = nearb r i j) ->
+  wf_t N n t -> tuple_near nr t ->
+  (forall tau, tau < length tp -> In (arr_of (map (tshift_tab tp tau) t))
+                                     (arrangements_of (length (sdistinct (map (tshift_tab tp tau) t))) blocks)) ->
+  in_some_row (elem_tab N tp) (bc blocks N tp nr) (elem_tab N tp t).
+Proof. intros Hn Hw Hv S R I. exact (near_tuple_in_some_row n blocks Hn Hw N tp Hv nr S R I t). Qed.
+Print Assumptions c04_every_near_tuple_in_some_row_partial.
+
+(** group widths of the regenerated tables are positive (hypothesis of the two theorems above) *)
+Definition widths_pos (blocks : list block) : bool := forallb (fun b => 0 <? group_width b) blocks.
+Theorem c04_group_widths_positive : widths_pos blocks_O2 = true /\ widths_pos blocks_O3 = true /\ widths_pos blocks_O4 = true.
+Proof. repeat split; vm_compute; reflexivity. Qed.
